@@ -13,7 +13,7 @@ import (
 	"github.com/bitly/go-simplejson"
 )
 
-func TestVerifOpenMatchFieldsNonStringDropped(t *testing.T) {
+func TestVerifMatchFieldsNonStringDropped(t *testing.T) {
 	const in = `{"code":500,"ok":true,"svc":"a"}`
 	j, err := simplejson.NewJson([]byte(in))
 	if err != nil {
